@@ -251,10 +251,17 @@ def run(R):
         n = function_obligations(R, W, k, scens, npoints=npts)
         if n == 0:
             R.ob(f'core.{k}:has-contract', k, 'undecided', 'pit-exact', 0.0, 'no scenario provides a spec for this key')
-    for s in ['shift_y', 'noshift', 'onshell']:
-        for present in [(), ('betaup3',), ('betax',), ('betaup3', 'betax')]:
+    # helpers with a cache guard (s_to_st: "is there any shift?"): every single-component shift, no shift, full shift, and every
+    # cache state of the composite betaup3 -- a guard that forgets one of the ways the shift can be given shows up here
+    for s in ['shift_x', 'shift_y', 'shift_z', 'noshift', 'onshell']:
+        for present in [(), ('betaup3',)]:
             helper_obligations(R, W, s, only={'s_to_st'}, npoints=npts, present=present,
                                tag='|cache:' + ('+'.join(present) or '-'))
+    # ... and the quantities that embed spatial tensors through that helper, on the real call chain
+    for s in ['shift_x', 'shift_z']:
+        for k in ('betaup3', 'betadown3', 'betamag', 'gdown4', 'eweyl_u_down4', 'bweyl_u_down4'):
+            if k in all_keys():
+                function_obligations(R, W, k, [s], npoints=1)
     cachevc.getitem_obligations(R)
     callgraph_obligation(R)
     history_obligations(R, W, 'onshell', 4 if R.tier == 'quick' else 40, 25, R.seed)
